@@ -19,6 +19,8 @@ const (
 	scJoin2     = "join:2:4:60"
 	scTwoLeaves = "twoleaves:5:8:90"
 	scJoinLeave = "joinleave:4:6:84"
+	scLaggards7 = "laggards:7:2:14:60:70"
+	scLaggards4 = "laggards:4:1:8:40:50"
 )
 
 func nodesOf(n int) []int {
@@ -45,12 +47,12 @@ func standardPhases(mons []string, suffix int, thorough bool) []Phase {
 		add("S1 n=3 depth 5 {6 gossip pairs,T0,T1,T2}", s1Items("s1:3:0", 5, 2, mons))
 	}
 	// S3: deviation bounded around fair seeds
-	seeds := []string{scStatic3, scStatic4, scSilent4, scSilent5, scLate4, scJoin3, scLeave4, scJoin2, scTwoLeaves, scJoinLeave}
+	seeds := []string{scStatic3, scStatic4, scSilent4, scSilent5, scLate4, scJoin3, scLeave4, scJoin2, scTwoLeaves, scJoinLeave, scLaggards7, scLaggards4}
 	var d0 []sched.Item
 	for _, s := range seeds {
 		d0 = append(d0, s3Items(s, 0, nil, nil, mons, suffix)...)
 	}
-	add("S3 d=0 on 10 seeds (static 3/4, silent 4/5, late witness, join 3->4, leave 4->3, join 2->3, two leaves in one block, join+leave in one block)", d0)
+	add("S3 d=0 on 12 seeds (static 3/4, silent 4/5, late witness, join 3->4, leave 4->3, join 2->3, two leaves in one block, join+leave in one block, 2 one-way laggards of 7, 1 of 4)", d0)
 	// S2: seed prefix + exhaustive window + fair suffix
 	w3 := "win:3:-1:" + scStatic3
 	wj := "win:4:-1:" + scJoin3
@@ -59,10 +61,6 @@ func standardPhases(mons []string, suffix int, thorough bool) []Phase {
 	if !thorough {
 		add("S2 static3, windows at seed positions 12,17,22, all sequences of length 2 over 12 actions", s2Items(w3, []int{12, 17, 22}, 2, n3, mons, suffix))
 		add("S2 join3to4, windows inside the activation window (positions 24,40), length 2 over 22 actions", s2Items(wj, []int{24, 40}, 2, n4, mons, suffix))
-	} else {
-		add("S2 static3, windows at 8,12,15,17,20,22,26,30, length 3 over 12 actions", s2Items(w3, []int{8, 12, 15, 17, 20, 22, 26, 30}, 3, n3, mons, suffix))
-		add("S2 join3to4, windows at 16,24,32,40,48,56, length 3 over 22 actions", s2Items(wj, []int{16, 24, 32, 40, 48, 56}, 3, n4, mons, suffix))
-		add("S2 leave4to3, windows at 12,24,36,48, length 3 over 23 actions (incl. a second leave)", s2Items(wl, []int{12, 24, 36, 48}, 3, n4+1, mons, suffix))
 	}
 	if !thorough {
 		add("S3 d<=1 static3 (every position, alphabet level 0)", s3Items(scStatic3, 1, seedPositions(scStatic3, 0, 0, 1), devAlphabet(nodesOf(3), 0, 0), mons, suffix))
@@ -77,6 +75,11 @@ func standardPhases(mons []string, suffix int, thorough bool) []Phase {
 		add("S3 d<=1 static4 (every 2nd position, full alphabet + silent)", s3Items(scStatic4, 1, seedPositions(scStatic4, 0, 0, 2), devAlphabet(nodesOf(4), 1, 1), mons, suffix))
 		add("S3 d<=1 silent5 (every 2nd position, level 0)", s3Items(scSilent5, 1, seedPositions(scSilent5, 0, 0, 2), devAlphabet(nodesOf(5), 0, 0), mons, suffix))
 		add("S3 d<=1 join2to3 (every position, level 0)", s3Items(scJoin2, 1, seedPositions(scJoin2, 0, 0, 1), devAlphabet(nodesOf(3), 0, 0), mons, suffix))
+		add("S3 d<=1 two laggards of 7 (every 8th position, level 0)", s3Items(scLaggards7, 1, seedPositions(scLaggards7, 0, 0, 8), devAlphabet(nodesOf(7), 0, 0), mons, suffix))
+		// S2 after the single deviations: length-3 windows are the most expensive phases
+		add("S2 static3, windows at 8,12,15,17,20,22,26,30, length 3 over 12 actions", s2Items(w3, []int{8, 12, 15, 17, 20, 22, 26, 30}, 3, n3, mons, suffix))
+		add("S2 join3to4, windows at 24,40,56, length 3 over 22 actions", s2Items(wj, []int{24, 40, 56}, 3, n4, mons, suffix))
+		add("S2 leave4to3, windows at 24,36, length 3 over 23 actions (incl. a second leave)", s2Items(wl, []int{24, 36}, 3, n4+1, mons, suffix))
 		add("S3 d=2 static3 (positions 8..32 step 3, level 0)", s3Items(scStatic3, 2, seedPositions(scStatic3, 8, 33, 3), devAlphabet(nodesOf(3), 0, 0), mons, suffix))
 		add("S3 d=2 join3to4 (activation window, positions 6..60 step 6, level 0)", s3Items(scJoin3, 2, seedPositions(scJoin3, 6, 61, 6), devAlphabet(nodesOf(4), 0, 0), mons, suffix))
 	}
